@@ -158,6 +158,10 @@ def parse_state(text):
     """text: '/\\ a = ...\n/\\ b = ...' -> {a: val, b: val}"""
     out = {}
     cur = None
+    import re as _re
+
+    if not text.startswith("/\\ ") and _re.match(r"^\w+ = ", text):      # a specification with one variable: no conjunction list
+        text = "/\\ " + text
     for line in text.split("\n"):
         if line.startswith("/\\ "):
             if cur is not None:
